@@ -361,6 +361,9 @@ void recipeStaged(RunState& rs) {
     runHistory(rs, *staged, sc.history, sc.isTaskBased(), "run");
     if (sc.variant == "staged" || sc.variant == "topstaged") {
         setStage("compare");
+        if (sc.isNumeric())   // floating-point kernels: the order in which P2P / L2P (and commutative tasks) accumulate differs between the two runs
+            compareViewsTol(ctx, staged->view(), full->view(), sc.isFloat() ? 1e-3 : 1e-9, "staged-vs-full", "staged execute() calls vs one full run of the same executor (floating-point kernel)");
+        else
         compareViews(ctx, staged->view(), full->view(), (1u << BUF_MULT) | (1u << BUF_LOCAL) | (1u << BUF_RHS) | (1u << BUF_CELL_SYMB) | (1u << BUF_PART_SYMB),
                      "staged-vs-full", "staged execute() calls vs one full run of the same executor");
         rs.drain("run");
